@@ -131,6 +131,22 @@ DeleteFold(tree, ents, k, gone, acc) ==
        IN IF ok THEN DeleteFold(tree, ents, k + 1, gone \cup {e.node}, [acc EXCEPT !.deleted = Append(@, e.path)])
           ELSE DeleteFold(tree, ents, k + 1, gone, [acc EXCEPT !.failed = Append(@, e.path)])
 
+\* the entries up to and including the first whose removal fails ("( -delete -o -quit )": the run ends there)
+RECURSIVE UpToFirstFailure(_, _, _, _)
+UpToFirstFailure(tree, ents, k, gone) ==
+  IF k > Len(ents) THEN ents
+  ELSE LET e == ents[k]
+           ok == (tree[e.node].kind # "d" \/ (Children(tree, e.node) \subseteq gone)) /\ NameOf(e.path) \notin {<<46>>, <<46, 46>>}
+       IN IF ok THEN UpToFirstFailure(tree, ents, k + 1, gone \cup {e.node}) ELSE SubSeq(ents, 1, k)
+
+DeleteRunQ(tree, cfg, roots, pre) ==
+  LET dcfg == [cfg EXCEPT !.depth = TRUE]
+      r == UpToFirstFailure(tree, Reached(tree, dcfg, roots, pre), 1, {})
+      f == DeleteFold(tree, r, 1, {}, [deleted |-> <<>>, failed |-> <<>>])
+  IN [matched |-> Paths(Reached(tree, dcfg, roots, pre)),
+      deleted |-> f.deleted, failed |-> f.failed, gone |-> f.gone,
+      errs |-> 0]
+
 DeleteRun(tree, cfg, roots, pre) ==
   LET dcfg == [cfg EXCEPT !.depth = TRUE]
       r == Reached(tree, dcfg, roots, pre)
